@@ -221,6 +221,11 @@ class GenerateWasmVisitor(Visitor.DefaultVisitor):
             cast(LinearIR.FunctionType, function.Type)
         )
 
+        # The signature goes into the type section and the function section
+        # binds this function (and thereby its export and code entry) to it
+        typeIndex = ctx.Module.AddFunctionType(functionType)
+        ctx.Module.AddFunction(typeIndex)
+
         # Check if function is exported - for now assume yes
 
         c = ctx.Code
